@@ -1,8 +1,11 @@
 package main
 
 import (
+	"bytes"
 	"encoding/json"
 	"fmt"
+	"io"
+	"log"
 	"reflect"
 	"sort"
 	"strings"
@@ -82,6 +85,8 @@ func c09Receivers(c *Ctx) []c09Recv {
 			return stackage.Cond("kw", stackage.Eq, "val").SetValidityPolicy(func(...any) error { return errCat }).SetReadOnly(true)
 		}},
 		c09Recv{"Condition/init-only", func() any { var cd stackage.Condition; cd.Init(); return cd.SetNoNesting(true).SetReadOnly(true) }},
+		c09Recv{"deep-chain/5", func() any { return c09DeepChain(5) }}, c09Recv{"deep-chain/7", func() any { return c09DeepChain(7) }}, c09Recv{"deep-chain/18", func() any { return c09DeepChain(18) }},
+		c09Recv{"deep-chain/6/conditions", func() any { return c09DeepChain(6, true) }}, c09Recv{"deep-chain/17/conditions", func() any { return c09DeepChain(17, true) }},
 		// encapsulation entries that are parts of one slice the caller keeps (spare room behind the first)
 		c09Recv{"AND/content1/encap-parts", func() any {
 			chars := []string{"<", ">", "|"}
@@ -97,6 +102,25 @@ func c09Receivers(c *Ctx) []c09Recv {
 		}},
 	)
 	return out
+}
+
+// c09DeepChain: read-only stacks nested n levels deep; at the bottom, instances whose own closures fail
+// (an Unmarshaler, a validity policy, an equality policy that answer with errors): queries that come back
+// with an error from far below must leave every level as it was, like those that succeed.
+func c09DeepChain(n int, conds ...bool) stackage.Stack {
+	fail := fmt.Errorf("closure of the innermost instance says no")
+	cur := stackage.And().Push("bottom",
+		stackage.Cond("deep", stackage.Eq, "v").SetUnmarshaler(func(...any) ([]any, error) { return nil, fail }).SetValidityPolicy(func(...any) error { return fail }).SetReadOnly(true),
+		stackage.List().Push("x", nil).SetUnmarshaler(func(...any) ([]any, error) { return nil, fail }).SetEqualityPolicy(func(any, any) error { return fail }).SetReadOnly(true))
+	cur.SetReadOnly(true)
+	for lvl := n - 1; lvl >= 1; lvl-- {
+		var link any = cur
+		if lvl%3 == 0 && len(conds) > 0 && conds[0] {
+			link = stackage.Cond(fmt.Sprintf("l%d", lvl), stackage.Ne, cur).SetReadOnly(true)
+		}
+		cur = newStackKind(kindNames[lvl%5]).Push(lvl, link, nil).SetReadOnly(true)
+	}
+	return cur
 }
 
 // roBit finds the raw bit driven by SetReadOnly on a fresh instance (no internal constant is assumed).
@@ -270,28 +294,30 @@ func c09Sibling(c *Ctx, rv c09Recv) int {
 	n := 0
 	probe := rv.Mk()
 	calls := c09Calls(probe)
-	hasAux := false
-	switch tv := probe.(type) {
-	case stackage.Stack:
-		hasAux = tv.Auxiliary() != nil
-	case stackage.Condition:
-		hasAux = tv.Auxiliary() != nil
-	}
-	if !hasAux {
+	if strings.HasPrefix(rv.Name, "deep-chain/") {
 		return 0
 	}
 	for _, cl := range calls {
 		x := rv.Mk()
 		var y any
 		var auxBefore string
+		// a logger of the user's own (not one of the package's), given to both before the flag was set
+		sink := &bytes.Buffer{}
+		lg := log.New(sink, "user ", log.Lmsgprefix)
+		lgState := func() string {
+			return fmt.Sprintf("writer-is-the-user's-buffer=%v prefix=%q flags=%d", lg.Writer() == io.Writer(sink), lg.Prefix(), lg.Flags())
+		}
 		switch tv := x.(type) {
 		case stackage.Stack:
-			y = newStackKind(tv.Kind()).Push("own").SetAuxiliary(tv.Auxiliary()).SetLogger(tv.Logger())
+			tv.SetReadOnly(false).SetLogger(lg).SetReadOnly(true)
+			y = newStackKind(tv.Kind()).Push("own").SetAuxiliary(tv.Auxiliary()).SetLogger(lg)
 			auxBefore = fmt.Sprint(map[string]any(tv.Auxiliary()))
 		case stackage.Condition:
-			y = stackage.Cond("own", stackage.Eq, "v").SetAuxiliary(tv.Auxiliary()).SetLogger(tv.Logger())
+			tv.SetReadOnly(false).SetLogger(lg).SetReadOnly(true)
+			y = stackage.Cond("own", stackage.Eq, "v").SetAuxiliary(tv.Auxiliary()).SetLogger(lg)
 			auxBefore = fmt.Sprint(map[string]any(tv.Auxiliary()))
 		}
+		lgBefore := lgState()
 		pv := reflect.New(reflect.TypeOf(y))
 		pv.Elem().Set(reflect.ValueOf(y))
 		before := c09Key(x, 0, false)
@@ -309,8 +335,8 @@ func c09Sibling(c *Ctx, rv c09Recv) int {
 		case stackage.Condition:
 			auxAfter = fmt.Sprint(map[string]any(tv.Auxiliary()))
 		}
-		if after := c09Key(x, 0, false); after != before || auxAfter != auxBefore {
-			c.Violation("changed-through-sibling:"+cl.Method, fmt.Sprintf("%s changed the read-only instance (auxiliary content %s -> %s):\n before %s\n after  %s", desc, auxBefore, auxAfter, before, after), cs, len(desc))
+		if after := c09Key(x, 0, false); after != before || auxAfter != auxBefore || lgState() != lgBefore {
+			c.Violation("changed-through-sibling:"+cl.Method, fmt.Sprintf("%s changed the read-only instance (auxiliary content %s -> %s; its logger %s -> %s):\n before %s\n after  %s", desc, auxBefore, auxAfter, lgBefore, lgState(), before, after), cs, len(desc))
 		}
 	}
 	return n
